@@ -251,9 +251,22 @@ def hReload (cs : CS) (n : String) (now : Int) : CS × Except LErr Unit :=
        | .ok st =>
          let l' := { l with st := { st with fresh := l.st.fresh } }
          let docs := st.facts.map (fun (id, f) => (id, absItem id f))
-         let tags := if cs.cfg.persistent then [] else
-           (docs.filter (fun d => d.2.sched != "")).map (fun d => (keyOf cs.cfg n d.1, "linear-load"))
-         ({ cs with sys := cs.sys.put l', log := cs.log ++ [.load n docs], tags := cs.tags ++ tags }, .ok ()))
+         -- every loaded document goes to the add hook with `loading = true` (since the repair of finding C15-linear-load);
+         -- the first document the hook refuses aborts the load
+         let acc := st.facts.foldl (fun (acc : Reg × List (List String) × List (RegKey × String) × Option LErr) p =>
+           let (reg, calls, tags, err) := acc
+           if err.isSome || cs.cfg.persistent then acc else
+           match getScheduleObj p.2 with
+           | .error e => (reg, calls, tags, some e)
+           | .ok s =>
+             if s == "" then acc else
+             (aSet reg (keyOf cs.cfg n p.1) ⟨s, n⟩, calls ++ [["schedule", n, p.1, s]],
+              (if Obj.has p.2 "expires" then tags ++ [(keyOf cs.cfg n p.1, "expiry")] else tags), none))
+           (cs.reg, cs.calls, cs.tags, none)
+         match acc with
+         | (reg, calls, _, some e) => ({ cs with odd := true, reg := reg, calls := calls }, .error e)
+         | (reg, calls, tags, none) =>
+           ({ cs with sys := cs.sys.put l', reg := reg, calls := calls, tags := tags, log := cs.log ++ [.load n docs] }, .ok ()))
     | .indexed =>
       let iaddFn : St → String → Obj → Int → St × Except LErr String := fun s g x nw =>
         match s.iadd g x nw with
